@@ -183,6 +183,13 @@ struct World : IWorld {
     // runs this destructor; an exception cannot leave a destructor
     if (!w || (w->tr.hp_like && !w->tr.dynamic)) return;
     int a = (int)(id % NCELLS);
+    // 0-2 guarded reads first (each a complete enter/leave of the reclaimer, i.e. a reclamation point of its own,
+    // nested inside the one that runs this destructor); the number is a recorded decision of the run
+    int pre = (int)xsim::choose(3);
+    for (int i = 0; i < pre; i++) {
+      Guard r;
+      r.acquire(w->cells[(a + 1 + i) % NCELLS], std::memory_order_acquire);
+    }
     Guard tmp;
     tmp.acquire(w->cells[a], std::memory_order_acquire);
     if (!tmp.get()) return;
